@@ -271,6 +271,58 @@ def partial_states(x):
     return states
 
 
+def reread_states(s, x):
+    """a damaged line that is empty is a line of context to the unified reader: the hunk it stands in is then a different, still
+    well-formed hunk (as far as the counts of its header reach) and the section is processed to its end with it.  The states
+    that hunk can leave, from any state after a whole number of earlier hunks, placed wherever its old side is found with up
+    to two lines of context dropped at either end."""
+    dmg = s.get("damaged")
+    if not dmg or dmg[1] != b"":
+        return []
+    k = dmg[0]
+    lines = s["tree"]["p.diff"][2].split(b"\n")
+    hdr = max([i for i in range(k) if lines[i].startswith(b"@@ -")], default=None)
+    if hdr is None:
+        return []
+    m = re.match(rb"@@ -(\d+)(?:,(\d+))? \+(\d+)(?:,(\d+))? @@", lines[hdr])
+    if not m:
+        return []
+    oc = int(m.group(2)) if m.group(2) is not None else 1
+    nc = int(m.group(4)) if m.group(4) is not None else 1
+    body, o, n = [], 0, 0
+    for l in lines[hdr + 1:]:
+        if o >= oc and n >= nc:
+            break
+        c = l[:1] if l else b" "
+        if c not in b" +-" or (c == b"\\"):
+            return []
+        body.append((c, l[1:]))
+        o += c in b" -"; n += c in b" +"
+    if o != oc or n != nc or k > hdr + len(body):
+        return []
+    out = []
+    for st in partial_states(x):
+        if st.endswith(b"\n") or not st:
+            cur = st.split(b"\n")[:-1] if st else []
+        else:
+            continue
+        for fl in range(3):
+            for ft in range(3):
+                b2 = list(body)
+                lead = 0
+                while lead < fl and b2 and b2[0][0] == b" ":
+                    b2.pop(0); lead += 1
+                tr = 0
+                while tr < ft and b2 and b2[-1][0] == b" ":
+                    b2.pop(); tr += 1
+                old = [t for c, t in b2 if c in b" -"]; new = [t for c, t in b2 if c in b" +"]
+                for pos in range(len(cur) - len(old) + 1):
+                    if cur[pos:pos + len(old)] == old:
+                        res = cur[:pos] + new + cur[pos + len(old):]
+                        out.append(b"".join(t + b"\n" for t in res))
+    return out
+
+
 def state_ok_after_abort(s, tree):
     """every file byte-for-byte in its original state or in the complete patched state of its section; for a rename, the source
     intact or the destination complete"""
@@ -299,7 +351,7 @@ def state_ok_after_abort(s, tree):
                 # (a backup taken is no excuse: after an abort caused by the patch text the file itself has to be there, in its
                 # original state or in the patched state of a section that was processed to its end)
                 return "%s is missing from its path%s" % (p, " (its content is only in the backup %s.orig)" % p if t.get(p + ".orig") else "")
-            elif cur[2] not in (orig[2], B) and cur[2] not in partial_states(x):
+            elif cur[2] not in (orig[2], B) and cur[2] not in partial_states(x) and cur[2] not in reread_states(s, x):
                 return "%s is neither in its original state nor in the state after a whole number of its hunks (%d bytes)" % (p, len(cur[2]))
     return None
 
@@ -334,6 +386,7 @@ def run_c09(run_, rng, tier, exe):
                 bad_line = rng.choice([b"?? garbage ??", b"@@ -x +y @@", b"", b"*** oops ****", b"~~~"])
                 t = dict(s); t["tree"] = dict(s["tree"])
                 t["tree"]["p.diff"] = ("R", 0o644, b"\n".join(lines[:k] + [bad_line] + lines[k + 1:]))
+                t["damaged"] = (k, bad_line)
                 scns.append(t); meta.append(k)
     res, b0, m0 = l2_family(run_, exe, scns, lambda s, r: (state_ok_after_abort(s, r["tree"]) if r["exit"] == 2 else None),
                             cls=lambda s, r: "syntax error -> exit %d" % r["exit"], label="C09a")
